@@ -11,7 +11,7 @@ visited by
   * for every node position p the identity visitor reaches and every action in {return None from enter
     (list members only -- that is what the property speaks about), return a fresh replacement, raise
     SkipNode}: a recording visitor applying the action at p (thorough: also every pair of positions
-    where neither contains the other);
+    where neither contains the other, for documents with <= 5 reached positions);
   * ChainedVisitor of 2 and 3 recording visitors: identity chains, and every (editing member j,
     action, position p) (quick: for chains of 3 only the middle member edits);
   * the three visitors of py_gql.utilities.ast_transforms.
@@ -61,7 +61,7 @@ ASSUMPTIONS = [
 ]
 BOUNDS = {
     "quick": {"nodes": {"fragvars": 7, "sdl": 5}, "depth": 3, "pair_edits_max_positions": 0, "chain_lengths": [2, 3], "chain_all_members": [2]},
-    "thorough": {"nodes": {"fragvars": 8, "sdl": 7}, "depth": 4, "pair_edits_max_positions": 7, "chain_lengths": [2, 3], "chain_all_members": [2, 3]},
+    "thorough": {"nodes": {"fragvars": 8, "sdl": 6}, "depth": 4, "pair_edits_max_positions": 5, "chain_lengths": [2, 3], "chain_all_members": [2, 3]},
 }
 TIME_CAP = {"quick": 150, "thorough": 1500}
 CHUNK = 40
